@@ -316,6 +316,29 @@ def run_history(lib, progs, schedule, rnd):
             "scheduled": schedule is not None}, calls[0]
 
 
+def tlaps_proof():
+    """tlapm on spec/proofs/PurityProof.tla (inductive invariant => Determinism and NoSharedWrite, Spec => [] of them)"""
+    import re
+    import shutil
+    import subprocess
+    import tempfile
+    here = os.path.dirname(os.path.dirname(os.path.dirname(os.path.abspath(__file__))))
+    exe = shutil.which("tlapm")
+    if exe is None:
+        return {"ran": False, "why": "tlapm not on PATH"}
+    d = tempfile.mkdtemp(prefix="gvf_tlaps_")
+    try:
+        shutil.copy(os.path.join(here, "spec", "proofs", "PurityProof.tla"), d)
+        p = subprocess.run([exe, "-I", os.path.join(here, "spec"), "PurityProof.tla"], cwd=d, stdout=subprocess.PIPE, stderr=subprocess.STDOUT,
+                           text=True, timeout=900)
+        m = re.search(r"All (\d+) obligations proved", p.stdout)
+        if not m:
+            raise tlc.MachineryError("TLAPS proof of PurityProof.tla did not go through: %s" % p.stdout[-600:])
+        return {"ran": True, "obligations_proved": int(m.group(1)), "theorem": "Spec => [](Determinism /\\ NoSharedWrite) for arbitrary Threads, CallIds, Cells, MaxLen (AsBuilt = FALSE)"}
+    finally:
+        shutil.rmtree(d, ignore_errors=True)
+
+
 def isolated_references(lib):
     """result of every concrete call when it is the only library call its process ever makes (c09_iso --all: one pristine
     process that has only imported the library, one forked child per call)"""
@@ -401,6 +424,8 @@ def run(ctx):
     if "Determinism" not in ra.violated:
         raise tlc.MachineryError("as-built Purity model does not refute Determinism: the model cannot express the defect")
     ctx.extra["asbuilt_counterexample_steps"] = len(ra.error_states)
+    # 1a. the same theorem WITHOUT the bounds: TLAPS proof for any number of threads / call classes / cells (spec/proofs/PurityProof.tla)
+    ctx.extra["tlaps_unbounded_proof"] = tlaps_proof()
     # 1b. history-independence references: every concrete call alone in a fresh interpreter
     ISO.clear()
     ISO.update(isolated_references(lib))
